@@ -27,7 +27,7 @@ func init() {
 			ruleW8(c, t)
 			ruleT1desc(c, t)
 		},
-		explanation: "Round-trip equality of encodings is a statement about values and is not decided.  Decided is that the tables both codecs are generated from agree, exhaustively: the FileDescriptorProto decoded from the rawDesc byte literal and the protobuf struct tags of the generated structs give the same (name, number, wire kind, repeated/map) for every field of every message; every UnmarshalVT has exactly the message's field numbers as cases, each checking the field's wire type and assigning only that field; every MarshalToSizedBufferVT block writes exactly one field with that field's tag bytes, in descending field-number order; every SizeVT block accounts for the same field with the same tag length and the same presence predicate as the marshal block; message-typed fields use nil-presence and scalars zero-suppression; ttRPC server registrations, client calls and the WASM host's exported-function calls cover exactly the descriptor's service methods, each routed to the same-named method with the descriptor's request type, the WASM binding using MarshalVT/UnmarshalVT; the Event enum of the descriptor equals the Go constants. Loops over repeated fields in the back-to-front encoder run from the last element to the first.",
+		explanation: "Round-trip equality of encodings is a statement about values and is not decided.  Decided is that the tables both codecs are generated from agree, exhaustively: the FileDescriptorProto decoded from the rawDesc byte literal and the protobuf struct tags of the generated structs give the same (name, number, wire kind, repeated/map) for every field of every message; every UnmarshalVT has exactly the message's field numbers as cases, each checking the field's wire type and assigning only that field; every MarshalToSizedBufferVT block writes exactly one field with that field's tag bytes, in descending field-number order; every SizeVT block accounts for the same field with the same tag length and the same presence predicate as the marshal block; message-typed fields use nil-presence and scalars zero-suppression; ttRPC server registrations, client calls and the WASM host's exported-function calls cover exactly the descriptor's service methods, each routed to the same-named method with the descriptor's request type, the WASM binding using MarshalVT/UnmarshalVT; the Event enum of the descriptor equals the Go constants. Loops over repeated fields in the back-to-front encoder run from the last element to the first. No field is zig-zag encoded; map-entry marks are taken per entry.",
 		notDecided: []string{
 			"varint/length arithmetic inside the helpers; UTF-8 checks; unknown fields",
 			"that protoimpl honours the descriptor (trusted)",
@@ -380,6 +380,10 @@ func ruleW1(c *Ctx, t *wireTables) {
 				bad = fmt.Sprintf("tag wire kind %q does not match descriptor type %d", x.wire, f.typ)
 			case x.rep != (f.label == 3):
 				bad = "repeated/singular differs"
+			case f.typ == 17 || f.typ == 18 || strings.HasPrefix(x.wire, "zigzag"):
+				// sint32/sint64: same wire type as a plain varint, different value encoding; the specialised codec
+				// writes and reads plain varints for every integer field (none of its field blocks zig-zags)
+				bad = fmt.Sprintf("the field is zig-zag encoded for the reflection codec (descriptor type %d, tag %q) but the specialised codec encodes plain varints: the two encodings disagree on every non-zero value", f.typ, x.wire)
 			}
 			c.ok("W1", key, x.pos, bad == "", what, bad)
 		}
@@ -1216,6 +1220,36 @@ func ruleW8(c *Ctx, t *wireTables) {
 			case *ast.RangeStmt:
 				if f := sliceField(x.X); f != "" {
 					c.violate("W8", name+"."+f, x.Pos(), "the encoder walks repeated field "+f+" backwards", "the field is ranged over front to back: the elements are written in reverse order")
+				}
+				// a map field: each entry's length is measured from a mark taken inside the loop body
+				if sel, ok := x.X.(*ast.SelectorExpr); ok {
+					if id, ok := sel.X.(*ast.Ident); ok && id.Name == recv {
+						if tv, ok := t.info.Types[x.X]; ok {
+							if _, isMap := tv.Type.Underlying().(*types.Map); isMap {
+								marked := false
+								for _, st := range x.Body.List {
+									if as, ok := st.(*ast.AssignStmt); ok && as.Tok == token.DEFINE && len(as.Lhs) == 1 && len(as.Rhs) == 1 {
+										if l, ok := as.Lhs[0].(*ast.Ident); ok && l.Name == "baseI" {
+											if r, ok := as.Rhs[0].(*ast.Ident); ok && r.Name == "i" {
+												marked = true
+											}
+										}
+									}
+								}
+								usesBase := false
+								ast.Inspect(x.Body, func(n3 ast.Node) bool {
+									if id, ok := n3.(*ast.Ident); ok && id.Name == "baseI" {
+										usesBase = true
+									}
+									return true
+								})
+								if usesBase {
+									c.ok("W8", name+"."+sel.Sel.Name+"/entry-mark", x.Pos(), marked, "each entry of map field "+sel.Sel.Name+" measures its own length (the mark is taken per entry)",
+										"the position mark the entry length is computed from is not taken inside the loop: every entry after the first gets a length prefix that also covers the entries written before it, so decoders see one entry whose value swallows the others (and the size no longer matches SizeVT)")
+								}
+							}
+						}
+					}
 				}
 			case *ast.ForStmt:
 				// which receiver slice does the body index with the loop variable?
